@@ -126,7 +126,10 @@ func (a *AcctRequest) Validate() error {
 			return err
 		}
 	}
-	return nil
+	if err := fitsArgCount(a.Args); err != nil {
+		return err
+	}
+	return fitsWire(maxUint8Len, a.User, a.Port, a.RemAddr)
 }
 
 // MarshalBinary marshals AccountingRequest to tacacs bytes
@@ -291,7 +294,7 @@ func (a *AcctReply) Validate() error {
 			return err
 		}
 	}
-	return nil
+	return fitsWire(maxUint16Len, a.ServerMsg, a.Data)
 }
 
 // MarshalBinary marshals AccountingReply to tacacs bytes
